@@ -440,7 +440,7 @@ theorem commute_counts (fix7a fix7b fix7c : Bool) (p : GPat) (l : List GPat)
 
 mutual
 theorem cloneV_consts : ∀ (vp : VPat) (k : Nat), constsV (cloneV vp k).1 = constsV vp
-  | .var _ _ true _ _, _ => by simp [cloneV, constsV]
+  | .var _ _ true _ _, _ => by simp only [cloneV]; split <;> simp [constsV]
   | .var _ _ false _ _, _ => by simp [cloneV, constsV]
   | .any, _ => by simp [cloneV, constsV]
   | .const _ _, _ => by simp [cloneV, constsV]
@@ -584,7 +584,7 @@ theorem commute_consts (fix7a fix7b fix7c : Bool) (p : GPat) (l : List GPat) (q 
 
 mutual
 theorem cloneV_skel : ∀ (vp : VPat) (k : Nat), skel (cloneV vp k).1 = skel vp
-  | .var _ _ true _ _, _ => by simp [cloneV, skel]
+  | .var _ _ true _ _, _ => by simp only [cloneV]; split <;> simp [skel]
   | .var _ _ false _ _, _ => by simp [cloneV, skel]
   | .any, _ => by simp [cloneV, skel]
   | .const _ _, _ => by simp [cloneV, skel]
